@@ -34,6 +34,9 @@ EVENT_LINES = [
     '2,5,2147483648', '2,inf,5', '2,1,2,3', '2,100,200 // brk',
     '3,100,1,2,3', 'Colour,1,2', '5,0,0,"s.wav"', 'Sample,1,2', '6,a,b', 'Animation,1,2', '7,1,2', 'background,0,x.png',
     ' 0,0,x.png', '0 ,0,x.png', ',,,', '0,0,"quoted"name"', '0,0,""', '0,0,a\\b',
+    # storyboard elements spelled by name, with a usable file name, and their (indented) command lines
+    'Sprite,Background,Centre,"SB\\bg.png",320,240', 'Sprite,Foreground,TopLeft,fg.png,0,0', 'Animation,Fail,Centre,"anim.png",320,240,4,100,LoopForever',
+    'Sample,100,0,"s.wav",80', ' F,0,0,1000,0,1', '_M,0,0,1000,320,240,100,100', '  S,0,500,,1.5', ' L,0,3',
 ]
 COLOR_LINES = [
     "Combo1 : 1,2,3", "Combo2: 255,255,255,0", "Combo1: 256,0,0", "Combo: 1,2", "Combo9: 1,2,3,4,5", "SliderBorder: 1,2,3",
